@@ -482,7 +482,18 @@ def rule_no_cross_dtype_cast(repo, rep):
           own.append(ast.unparse(c.func.value))
         own += [ast.unparse(a) for a in c.args[:1]]
         fname = ast.unparse(c.func)
-        if src in own or fname.endswith(('finfo', 'iinfo')):
+        # the converted value is a boolean mask (a comparison): nothing can
+        # be truncated
+        recv = c.func.value if isinstance(c.func, ast.Attribute) else (
+            c.args[0] if c.args else None)
+        while isinstance(recv, ast.Call) and isinstance(
+                recv.func, ast.Attribute) and recv.func.attr in (
+                    'ravel', 'squeeze', 'reshape', 'flatten'):
+          recv = recv.func.value
+        is_mask = isinstance(recv, (ast.Compare, ast.BoolOp)) or (
+            isinstance(recv, ast.UnaryOp) and
+            isinstance(recv.op, (ast.Not, ast.Invert)))
+        if src in own or fname.endswith(('finfo', 'iinfo')) or is_mask:
           rep.derived(R, '%s:%s' % (f.key, ast.unparse(c)[:50]), site(f, c))
           continue
         # allocation of a result buffer in the dtype of its future content
